@@ -97,27 +97,25 @@ Example C10_point_to_disk_nonvacuous :
   exists p c r n d cp, dot n n = 1 /\ 0 <= r /\ point_to_disk p c r n = (d, cp) /\ p <> cp.
 Proof. exact point_to_disk_nonvacuous. Qed.
 
-(** point_to_circle: unit normal; outside the epsilon band of the on-axis test: [circle_band_ok] = the in-plane part of
-    p - c has squared length >= eps, or it is exactly 0 and pytransform3d's perpendicular_to_vector is exact for n
-    (n_z = 0 or |n_z| >= machine epsilon) *)
+(** point_to_circle: unit normal.  Since /repo 8d1302d d is |p - cp| in both arms, so feasibility only needs the returned
+    point to be on the circle: always in the general arm (sqr_len >= eps); in the on-axis arm iff pytransform3d's
+    perpendicular_to_vector is exact for n (n_z = 0 or |n_z| >= machine epsilon) = [circle_feasible_ok] *)
 Theorem C10_point_to_circle (p c : V3R) (r : R) (n : V3R) (eps : R) d cp :
-  dot n n = 1 -> 0 <= r -> 0 < eps -> circle_band_ok p c n eps ->
+  dot n n = 1 -> 0 <= r -> 0 < eps -> circle_feasible_ok p c n eps ->
   point_to_circle p c r n eps = (d, cp) -> feasible (point_set p) (circle_set c r n) d p cp.
 Proof. exact (point_to_circle_feasible p c r n eps d cp). Qed.
 Print Assumptions C10_point_to_circle.
 Example C10_point_to_circle_nonvacuous :
   exists p c r n eps d cp,
-    dot n n = 1 /\ 0 <= r /\ 0 < eps /\ circle_band_ok p c n eps /\ point_to_circle p c r n eps = (d, cp).
-Proof. exact point_to_circle_nonvacuous. Qed.
-
-(** INSIDE the band (0 < sqr_len < eps) the on-axis arm returns d = sqrt(r^2 + h^2), which is not |p - cp|:
-    the statement without the band hypothesis is false (witness: p 1/2000 off the axis of the unit circle) *)
-Theorem C10_point_to_circle_in_band_refuted :
+    dot n n = 1 /\ 0 <= r /\ 0 < eps /\ circle_feasible_ok p c n eps /\ point_to_circle p c r n eps = (d, cp).
+Proof. exact point_to_circle_feasible_nonvacuous. Qed.
+(** the former in-band counterexample (p 1/2000 off the axis) is now feasible: finding FD3 is fixed *)
+Example C10_point_to_circle_in_band_nonvacuous :
   exists p c r n eps d cp,
     dot n n = 1 /\ 0 <= r /\ 0 < eps /\ 0 < circle_sqr_len p c n < eps /\
-    point_to_circle p c r n eps = (d, cp) /\ ~ feasible (point_set p) (circle_set c r n) d p cp.
-Proof. exact point_to_circle_band_feasible_refuted. Qed.
-Print Assumptions C10_point_to_circle_in_band_refuted.
+    point_to_circle p c r n eps = (d, cp) /\ d = 1999 / 2000 /\ cp = V 1 0 0 /\
+    feasible (point_set p) (circle_set c r n) d p cp.
+Proof. exact point_to_circle_band_feasible_example. Qed.
 (** exactly on the axis with 0 < |n_z| < machine epsilon the returned point is off the circle's plane *)
 Theorem C10_point_to_circle_on_axis_refuted :
   exists p c r n eps d cp,
@@ -203,71 +201,46 @@ Example C10_plane_to_plane_nonvacuous :
   exists d c1 c2, plane_to_plane (V 0 0 0) (V 0 0 1) (V 0 0 2) (V 0 0 1) (/ 2) = (d, c1, c2) /\ dot (V 0 0 1 : V3R) (V 0 0 1) = 1.
 Proof. ex3. vsimp; ring. Qed.
 
-(** plane_to_triangle (argmin/argmax of the signed vertex distances): PARTIAL -- needs [plane_triangle_band_ok]: if the extreme
-    vertices are strictly on opposite sides, the edge between them is not in the band 0 < (dir.pn)^2 < 1e-6 of the hard-wired
-    epsilon of the inner _line_segment_to_plane call; without it the statement is FALSE (next theorem) *)
-Theorem C10_plane_to_triangle_partial (pp pn a b c : V3R) d c1 c2 arm :
-  dot pn pn = 1 -> plane_triangle_band_ok pp pn a b c ->
-  plane_to_triangle pp pn a b c = (d, c1, c2, arm) ->
+(** plane_to_triangle / plane_to_rectangle / plane_to_box = _plane_to_convex_hull_points on the vertex list (general
+    theorem [plane_to_points_feasible] for any non-empty list, Proofs/DistPlaneHull.v).  Since /repo e4c9460 the crossing arm
+    interpolates between the two extreme vertices, so the statements hold for ALL inputs with a unit normal (the former
+    1e-6 band hypothesis and its refutations are gone together with findings FD1/FD2). *)
+Theorem C10_plane_to_triangle (pp pn a b c : V3R) d c1 c2 arm :
+  dot pn pn = 1 -> plane_to_triangle pp pn a b c = (d, c1, c2, arm) ->
   feasible (plane_set pp pn) (triangle_set a b c) d c1 c2.
-Proof. exact (plane_to_triangle_feasible_partial pp pn a b c d c1 c2 arm). Qed.
-Print Assumptions C10_plane_to_triangle_partial.
-Example C10_plane_to_triangle_partial_nonvacuous :
+Proof. exact (plane_to_triangle_feasible pp pn a b c d c1 c2 arm). Qed.
+Print Assumptions C10_plane_to_triangle.
+Example C10_plane_to_triangle_nonvacuous :
   let pp : V3R := V 0 0 0 in let pn : V3R := V 0 0 1 in
   let a : V3R := V 0 0 (-1) in let b : V3R := V 0 0 1 in let c : V3R := V 1 0 0 in
-  dot pn pn = 1 /\ plane_triangle_band_ok pp pn a b c /\
-  dot (vsub a pp) pn < 0 < dot (vsub b pp) pn /\
+  dot pn pn = 1 /\ dot (vsub a pp) pn < 0 < dot (vsub b pp) pn /\
   exists x, plane_to_triangle pp pn a b c = (0, x, x, 0%nat).
-Proof. exact plane_triangle_band_ok_nonvacuous. Qed.
+Proof. exact plane_to_triangle_nonvacuous. Qed.
 
-Theorem C10_plane_to_triangle_refuted :
-  exists (pp pn a b c : V3R) (d : R) (c1 c2 : V3R) (arm : nat),
-    dot pn pn = 1 /\ plane_to_triangle pp pn a b c = (d, c1, c2, arm) /\
-    ~ feasible (plane_set pp pn) (triangle_set a b c) d c1 c2.
-Proof. exact plane_to_triangle_feasible_refuted. Qed.
-Print Assumptions C10_plane_to_triangle_refuted.
-
-
-(** plane_to_rectangle / plane_to_box (the general [plane_to_points] theorem for any non-empty vertex list, instantiated):
-    PARTIAL in the same sense as plane_to_triangle: outside the hard-wired 1e-6 band ([points_band_ok]); inside it refuted *)
-Theorem C10_plane_to_rectangle_partial (pp pn c a0 a1 : V3R) (l0 l1 : R) d c1 c2 arm :
-  dot pn pn = 1 -> 0 <= l0 -> 0 <= l1 -> plane_rectangle_band_ok pp pn c a0 a1 l0 l1 ->
+Theorem C10_plane_to_rectangle (pp pn c a0 a1 : V3R) (l0 l1 : R) d c1 c2 arm :
+  dot pn pn = 1 -> 0 <= l0 -> 0 <= l1 ->
   plane_to_rectangle pp pn c a0 a1 l0 l1 = (d, c1, c2, arm) ->
   feasible (plane_set pp pn) (rectangle_set c a0 a1 l0 l1) d c1 c2.
-Proof. exact (plane_to_rectangle_feasible_partial pp pn c a0 a1 l0 l1 d c1 c2 arm). Qed.
-Print Assumptions C10_plane_to_rectangle_partial.
-Example C10_plane_to_rectangle_partial_nonvacuous :
+Proof. exact (plane_to_rectangle_feasible pp pn c a0 a1 l0 l1 d c1 c2 arm). Qed.
+Print Assumptions C10_plane_to_rectangle.
+Example C10_plane_to_rectangle_nonvacuous :
   let pp : V3R := V 0 0 0 in let pn : V3R := V 0 0 1 in
   let c : V3R := V 0 0 3 in let a0 : V3R := V 1 0 0 in let a1 : V3R := V 0 1 0 in
-  dot pn pn = 1 /\ 0 <= 2 /\ plane_rectangle_band_ok pp pn c a0 a1 2 2 /\
-  exists c1 c2, plane_to_rectangle pp pn c a0 a1 2 2 = (3, c1, c2, 1%nat).
+  dot pn pn = 1 /\ 0 <= 2 /\ exists c1 c2, plane_to_rectangle pp pn c a0 a1 2 2 = (3, c1, c2, 1%nat).
 Proof. exact plane_to_rectangle_nonvacuous_above. Qed.
-Theorem C10_plane_to_rectangle_refuted :
-  exists pp pn c a0 a1 l0 l1 d c1 c2 arm,
-    dot pn pn = 1 /\ dot a0 a0 = 1 /\ dot a1 a1 = 1 /\ dot a0 a1 = 0 /\ 0 <= l0 /\ 0 <= l1 /\
-    plane_to_rectangle pp pn c a0 a1 l0 l1 = (d, c1, c2, arm) /\ ~ feasible (plane_set pp pn) (rectangle_set c a0 a1 l0 l1) d c1 c2.
-Proof. exact plane_to_rectangle_feasible_refuted. Qed.
-Print Assumptions C10_plane_to_rectangle_refuted.
 
-Theorem C10_plane_to_box_partial (pp pn : V3R) (T : Pose R) (sz : V3R) d c1 c2 arm :
-  dot pn pn = 1 -> 0 <= vx sz -> 0 <= vy sz -> 0 <= vz sz -> plane_box_band_ok pp pn T sz ->
+Theorem C10_plane_to_box (pp pn : V3R) (T : Pose R) (sz : V3R) d c1 c2 arm :
+  dot pn pn = 1 -> 0 <= vx sz -> 0 <= vy sz -> 0 <= vz sz ->
   plane_to_box pp pn T sz = (d, c1, c2, arm) -> feasible (plane_set pp pn) (box_of T sz) d c1 c2.
-Proof. exact (plane_to_box_feasible_partial pp pn T sz d c1 c2 arm). Qed.
-Print Assumptions C10_plane_to_box_partial.
-Example C10_plane_to_box_partial_nonvacuous :
+Proof. exact (plane_to_box_feasible pp pn T sz d c1 c2 arm). Qed.
+Print Assumptions C10_plane_to_box.
+Example C10_plane_to_box_nonvacuous :
   let pp : V3R := V 0 0 0 in let pn : V3R := V 0 0 1 in
   let T : Pose R := P ident (V 0 0 0) in let sz : V3R := V 2 2 2 in
   dot pn pn = 1 /\ is_rotation (rot T) /\ 0 <= vx sz /\ 0 <= vy sz /\ 0 <= vz sz /\
-  plane_box_band_ok pp pn T sz /\
   sd_min pp pn (box_vertices T sz) < 0 < sd_max pp pn (box_vertices T sz) /\
   exists x, plane_to_box pp pn T sz = (0, x, x, 0%nat) /\ plane_set pp pn x /\ box_of T sz x.
 Proof. exact plane_to_box_nonvacuous. Qed.
-Theorem C10_plane_to_box_refuted :
-  exists pp pn T sz d c1 c2 arm,
-    dot pn pn = 1 /\ is_rotation (rot T) /\ 0 < vx sz /\ 0 < vy sz /\ 0 < vz sz /\
-    plane_to_box pp pn T sz = (d, c1, c2, arm) /\ ~ feasible (plane_set pp pn) (box_of T sz) d c1 c2.
-Proof. exact plane_to_box_feasible_refuted. Qed.
-Print Assumptions C10_plane_to_box_refuted.
 
 (** ** Combinators (Model/DistPrimComb.v): feasibility is inherited from the callees for every enumeration order
     and every early exit.  All carry [d < max_float] (= np.finfo(float).max as a real number): the loops start from
